@@ -107,6 +107,8 @@ pub enum Reply {
     Died { signal: Option<i32>, code: Option<i32>, phase: String, stderr: String },
     /// no answer: (last phase, cpu seconds burnt, spinning?)
     Hung { phase: String, cpu_s: f64, spinning: bool },
+    /// the worker process could not be started
+    NoWorker(String),
 }
 
 pub struct Worker {
@@ -129,11 +131,11 @@ fn cpu_seconds(pid: u32) -> f64 {
 }
 
 impl Worker {
-    pub fn spawn() -> Worker {
+    pub fn spawn() -> std::io::Result<Worker> {
         let dir = fresh_dir();
         let stderr_path = dir.join("stderr.log");
-        let errf = std::fs::OpenOptions::new().create(true).append(true).open(&stderr_path).expect("stderr file");
-        let exe = std::env::current_exe().expect("current_exe");
+        let errf = std::fs::OpenOptions::new().create(true).append(true).open(&stderr_path)?;
+        let exe = std::env::current_exe()?;
         let mut child = Command::new(exe)
             .env(ENV, &dir)
             .env("VCORE_CHILD", "1")
@@ -146,10 +148,12 @@ impl Worker {
             .stdout(Stdio::piped())
             .stderr(Stdio::from(errf))
             .spawn()
-            .expect("spawn worker");
+            .inspect_err(|_| {
+                let _ = std::fs::remove_dir_all(&dir);
+            })?;
         let stdin = child.stdin.take();
         let stdout = std::io::BufReader::new(child.stdout.take().unwrap());
-        Worker { child, stdin, stdout, dir, stderr_path }
+        Ok(Worker { child, stdin, stdout, dir, stderr_path })
     }
 
     /// First lines of the worker's stderr for the current case (the allocation
@@ -260,7 +264,11 @@ pub fn call(fmt: Fmt, do_run: bool, bytes: &[u8]) -> Reply {
     WORKER.with(|w| {
         let mut w = w.borrow_mut();
         if w.is_none() {
-            *w = Some(Worker::spawn());
+            match Worker::spawn() {
+                Ok(nw) => *w = Some(nw),
+                // infrastructure (e.g. the binary was replaced while running): inconclusive
+                Err(e) => return Reply::NoWorker(e.to_string()),
+            }
         }
         let r = w.as_mut().unwrap().call(fmt, do_run, bytes);
         if !matches!(r, Reply::Done(_)) {
